@@ -163,6 +163,14 @@ class Relay(W.NetPolicy):
         if lim is not None and len(dg.data) > lim:
             self.log.append(("a", "oversize", len(dg.data)))
             return []
+        if self.a8 == "reject":
+            for rr in m.an:
+                hi = any(c >= 0x80 for nm in rr.names for l in nm for c in l) or \
+                    any(c >= 0x80 for st in rr.extra.get("strings", []) for c in st)
+                if hi:
+                    self.log.append(("a", "reject8", len(dg.data)))
+                    m.id = self.idmap.get((dg.dst, m.id), m.id) if self.rewrite_id else m.id
+                    return [(self.errreply(m, 2), dg.src, dg.dst)]
         for rr in m.an:
             if rr.names:
                 rr.names = [_map_labels(rr.names[0], self._xa, 1)]
